@@ -12,6 +12,7 @@ import inspect
 import sys
 
 from detsim.core import HistoryWorld, Violation, StopRun
+from detsim import lib as lib_mod
 from refmodel import boc as refboc, hashmap, tlb
 from refmodel.rcell import RCell, RCellError, pruned_of, merkle_proof_of, merkle_update_of, library_ref_of
 from .common import (call, to01, tvm_bits, lib_cell_from_rcell, rcell_from_lib, struct_diff, Cell, Builder, Slice, bitarray, Address, ExternalAddress, addr_tuple)
@@ -73,6 +74,20 @@ class St:
 
 def snapshot(c):
     return (c.hash, to01(c.bits), tuple(id(r) for r in c.refs), tuple(r.hash for r in c.refs), c.type_, c.level_mask.mask)
+
+
+def _malformed_bags():
+    """Single-cell bags (no index, no CRC) whose cell carries the exotic flag and fewer than 8 data bits: the cell is the last
+    2 + ceil(bits/8) bytes of the encoding, so its first descriptor byte is found from the end."""
+    out = []
+    for bits in ('101', '1', '0110101'):
+        b = bytearray(refboc.encode([RCell(bits)]))
+        b[-3] |= 8
+        out.append(bytes(b))
+    return out
+
+
+_MALFORMED_BAGS = _malformed_bags()
 
 
 class _AppCell(Cell):
@@ -147,7 +162,10 @@ class PoolWorld(HistoryWorld):
             return {'steps': 8, 'callers': 1, 'arena': 1, 'shape': shapes[run_index % len(shapes)]}
         if leg == 'huge':
             return {'steps': 5, 'callers': 1, 'arena': 1, 'shape': 'cells%d' % (65534 + run_index % 4)}
-        return {'steps': rng.choice([20, 40, 80]), 'callers': 1, 'arena': rng.choice([3, 6, 12]), 'exotic': rng.random() < (0.4 if self.prop == 'C03' else 0.2)}
+        cfg = {'steps': rng.choice([20, 40, 80]), 'callers': 1, 'arena': rng.choice([3, 6, 12]), 'exotic': rng.random() < (0.4 if self.prop == 'C03' else 0.2)}
+        if self.prop == 'C01' and run_index % 160 == 11:
+            cfg['foreign'] = True
+        return cfg
 
     def new_state(self, ctx):
         reset_hidden_state()
@@ -218,6 +236,8 @@ class PoolWorld(HistoryWorld):
         return {'op': 'via_builder', 'c': self._ref(rng), 'more_bits': _rbits(rng, rng.choice([0, 0, 1, 8])), 'more_ref': self._ref(rng) if rng.random() < 0.4 else None, 'caller': caller}
 
     def _gen_c01(self, st, rng, cfg):
+        if cfg.get('foreign') and st.step == cfg['steps'] - 2:
+            return {'op': 'foreign_process', 'hashseed': rng.randrange(1, 4000), 'caller': 0}
         if cfg.get('deep'):
             return self._gen_create(rng) if rng.random() < 0.7 else {'op': 'copy', 'c': ['A', 0], 'caller': 0}
         return self._gen_create(rng)
@@ -600,6 +620,36 @@ class PoolWorld(HistoryWorld):
         self._register(st, st.callers[k].cells, c, twin, ctx, 'from_boc')
         return c.hash.hex()
 
+    def op_foreign_process(self, st, op, ctx, k):
+        """Cells that were built in ANOTHER interpreter process (a worker, a job queue) and handed over by pickle: that process salts
+        str/bytes hashing differently (its own PYTHONHASHSEED).  They are the same cells: equal to, and colliding as dictionary keys
+        with, the ones built here."""
+        import pickle
+        import subprocess
+        pool = [e for e in (st.callers[k].cells + st.arena) if e['twin'] is not None and not e['twin'].special][:6]
+        if not pool:
+            return None
+        bocs = [refboc.encode([e['twin']]).hex() for e in pool]
+        code = ('import sys, pickle; sys.path.insert(0, %r); from pytoniq_core.boc.cell import Cell; '
+                'cs = [Cell.one_from_boc(h) for h in %r]; [hash(c) for c in cs]; sys.stdout.write(pickle.dumps(cs).hex())' % (lib_mod.REPO, bocs))
+        env = dict(__import__('os').environ, PYTHONHASHSEED=str(op['hashseed']), PYTHONDONTWRITEBYTECODE='1')
+        p = subprocess.run([sys.executable, '-c', code], capture_output=True, text=True, env=env, timeout=120)
+        if p.returncode != 0:
+            return 'child-failed'
+        ok, remote = call(lambda: pickle.loads(bytes.fromhex(p.stdout)))
+        if not ok:
+            return 'unpickle-raised:' + type(remote).__name__      # pickling support is not part of the statement
+        ctx.probe('cells-received-from-another-interpreter-process')
+        for e, r in zip(pool, remote):
+            loc = e['lib']
+            okc, res = call(lambda: (r.hash == loc.hash, r == loc and loc == r, len({loc: 1, r: 2}), {loc: 1}.get(r), r in {loc}))
+            if not okc or res != (True, True, 1, 1, True):
+                self.V(ctx, 'equality', 'pickled-from-another-process', 'equal-hashes',
+                       'a cell received from another interpreter process (PYTHONHASHSEED=%d) and the equal cell built here: same hash %r, ==: %r, dict entries: %r, lookup: %r, in set: %r'
+                       % ((op['hashseed'],) + (tuple(res) if okc else (res,) * 5)))
+                return 'differs'
+        return 'ok'
+
     def op_slice_to_cell(self, st, op, ctx, k):
         e = st.entry(k, op['c'])
         if e is None or e['twin'] is None or e['twin'].special:
@@ -749,6 +799,12 @@ class PoolWorld(HistoryWorld):
         enc = op['enc']
         arg = data if enc == 'bytes' else (data.hex() if enc == 'hex' else (data.hex().upper() if enc == 'HEX' else base64.b64encode(data).decode()))
         entry = op['entry']
+        if op['blob'] % 4 == 1 and self.prop in ('C03', 'C08'):
+            # earlier in the process a malformed bag was delivered and rejected (a cell with the exotic flag and fewer than 8
+            # data bits - rejected only after its data was unpacked): it is over, the parse below is an ordinary one
+            for bad in _MALFORMED_BAGS:
+                call(Cell.from_boc, bad)
+            ctx.probe('malformed-bag-rejected-earlier-in-the-process')
         held = []
 
         def first_of_list(a):
